@@ -167,6 +167,22 @@ def runner(rep, tier, seed, replay):
             rep.violation("status/here", "status after the here-string command was %s" % mk[0].get("argv"), case, feat)
         elif reader == "cons" and (len(ends) != 1 or ends[0].get("nread") != size + 1):
             rep.violation("delivery/here", "the reader of a %d byte here-string received %s" % (size, ends), case, feat)
+    # the writer must be stopped by SIGPIPE itself (the helper stages restore the default disposition on their own, so they cannot
+    # see what the shell hands down): a system shell loop that ignores write errors in front of a reader that exits early
+    sp = [("sh -c 'while :; do echo y; done' | head -n 1 ; vmk 9 0 $?", "0"),
+          ("sh -c 'while :; do echo y; done' | sh -c 'read x; exit 4' ; vmk 9 0 $?", "4"),
+          ("sh -c 'while :; do echo y; done' | sh -c 'while :; do echo z; done' | head -n 2 ; vmk 9 0 $?", "0")]
+    for ent in ("c", "script"):
+        sres = run_cases([{"entry": ent, "text": ln + ("\n" if ent == "script" else ""), "timeout": 30, "want_files": False} for ln, _ in sp])
+        for (ln, want), res in zip(sp, sres):
+            rep.cov["evaluations"] += 1
+            feat = {"n": ln.count("|") + 1, "kinds": ["sigpipe-writer"], "payload": "endless", "exit": int(want), "entry": ent}
+            case = {"scenario": {"sigpipe": True, "entry": ent}, "text": ln, "status": res.get("status"), "stderr": res.get("stderr", "")[-300:]}
+            mk = [r for r in res.get("log", []) if r.get("h") == "mk" and r.get("id") == "9"]
+            if res.get("timed_out"):
+                rep.violation("hang/sigpipe", "`%s` (%s) did not terminate: the endless writer was not stopped when its reader exited" % (ln, ent), case, feat)
+            elif len(mk) != 1 or mk[0].get("argv") != [want]:
+                rep.violation("status/sigpipe", "`%s` (%s): status after the pipeline %s, expected %s" % (ln, ent, [m.get("argv") for m in mk], want), case, feat)
     # (B) strace sample validated against the kernel descriptor model
     sample = rnd.sample(pick, min(len(pick), 25 if tier == "quick" else 200))
     runs = [c08.run_traced("vmk 0 0\n%s\nvmk 1 0\n" % render(s), "c02") for s in sample]
